@@ -110,6 +110,7 @@ structure U (α : Type) where
   revive : Bool := false
   rprio : Int := 45          -- priority of the insert the revive effect queues (a late one: after inserted actions)
   dot : Option Int := none   -- source of the damage-over-time modifier
+  dotAll : Bool := false     -- that modifier's phase-1 attack hits the owner's whole side, not the owner alone
   freeze : Bool := false
   p2 : Bool := false
   bext : Bool := false       -- carries a modifier with the BREAK_EXTEND flag
@@ -312,7 +313,8 @@ def resolve (cfg : Cfg) (s : S α) (sel : Sel) (src pt : Int) : List Int :=
 def addMod (u : U α) (k : Int) (src : Int) : U α :=
   if k == 0 then (if u.revive then u else { u with revive := true, rprio := 45 })
   else if k == 7 then (if u.revive then u else { u with revive := true, rprio := 600 })
-  else if k == 1 then (if u.dot.isSome then u else { u with dot := some src })
+  else if k == 1 then (if u.dot.isSome then u else { u with dot := some src, dotAll := false })
+  else if k == 8 then (if u.dot.isSome then u else { u with dot := some src, dotAll := true })
   else if k == 2 then { u with freeze := true }
   else if k == 4 then { u with bext := true }
   else if k == 5 then { u with dis := true }
@@ -322,7 +324,8 @@ def addMod (u : U α) (k : Int) (src : Int) : U α :=
 def rmMod (u : U α) (k : Int) : U α :=
   if k == 0 then (if u.rprio == 45 then { u with revive := false } else u)
   else if k == 7 then (if u.rprio == 600 then { u with revive := false } else u)
-  else if k == 1 then { u with dot := none }
+  else if k == 1 then (if u.dotAll then u else { u with dot := none })
+  else if k == 8 then (if u.dotAll then { u with dot := none, dotAll := false } else u)
   else if k == 2 then { u with freeze := false }
   else if k == 4 then { u with bext := false }
   else if k == 5 then { u with dis := false }
@@ -507,7 +510,7 @@ def executeQueue (cfg : Cfg) (fuel : Nat) (s : S α) (early : Bool) : S α :=
 def tickPhase1 (cfg : Cfg) (s : S α) : S α :=
   match unitOf s s.active with
   | some u => match u.dot with
-    | some src => attack cfg s src [s.active] 4
+    | some src => attack cfg s src (if u.dotAll then (if isCharId cfg s.active then s.chars else s.enemies) else [s.active]) 4
     | none => s
   | none => s
 
